@@ -45,15 +45,18 @@ type cellTr struct {
 	globals map[string]ast.Expr // package-level var initialisers
 	ret     []cval
 	// element-API mode: methods of *Element are inlined (aliasing is cell identity), nil guards become Option
-	src      *pkgSrc
-	apiMode  bool
-	depth    int
-	optional map[string]bool // top-level parameters tested against nil
-	nilGuard *cellGuard      // `if p == nil { return … }` at the top of the translated method
-	ifGuard  *cellGuard      // `if <bool> { return … }` at the top of the translated method (after the lets of the condition)
-	done     bool            // a return was executed in the current (inlined) body
-	topElems map[string]cval // top-level element parameters (representative of each alias class)
-	maybeNil map[string]bool // top-level parameters that the caller may pass as nil (not yet guarded)
+	src       *pkgSrc
+	apiMode   bool
+	depth     int
+	optional  map[string]bool   // top-level parameters tested against nil
+	nilGuard  *cellGuard        // `if p == nil { return … }` at the top of the translated method
+	ifGuard   *cellGuard        // `if <bool> { return … }` at the top of the translated method (after the lets of the condition)
+	done      bool              // a return was executed in the current (inlined) body
+	consts    map[string]string // integer constants of the package (decoder mode)
+	bytesMode bool              // byte-string parameters and expressions are accepted (decoder mode)
+	recvName  string            // name of the top-level receiver (decoder mode)
+	topElems  map[string]cval   // top-level element parameters (representative of each alias class)
+	maybeNil  map[string]bool   // top-level parameters that the caller may pass as nil (not yet guarded)
 }
 
 // cellGuard: an early return at the top of an API method
@@ -107,6 +110,9 @@ func (t *cellTr) val(e ast.Expr) string {
 
 func (t *cellTr) u64(e ast.Expr) string {
 	v := t.eval(e)
+	if v.kind == "nat" {
+		return v.expr
+	}
 	if v.kind != "u64" {
 		t.fail(e, "operand is not a uint64")
 	}
@@ -198,6 +204,9 @@ func (t *cellTr) eval(e ast.Expr) cval {
 			t.env[x.Name] = v
 			return v
 		}
+		if c, ok := t.consts[x.Name]; ok && t.bytesMode {
+			return cval{kind: "u64", expr: c}
+		}
 		t.fail(e, "unknown identifier "+x.Name)
 	case *ast.ParenExpr:
 		return t.eval(x.X)
@@ -225,6 +234,16 @@ func (t *cellTr) eval(e ast.Expr) cval {
 		return cval{kind: "ptr", c: t.newCell(t.cur[v.c])}
 	case *ast.CompositeLit:
 		return t.composite(x)
+	case *ast.IndexExpr:
+		if t.bytesMode {
+			return cval{kind: "u64", expr: t.natExpr(x)}
+		}
+	case *ast.BasicLit:
+		if t.bytesMode {
+			if v, ok := litVal(x); ok {
+				return cval{kind: "u64", expr: v}
+			}
+		}
 	case *ast.BinaryExpr:
 		if t.apiMode && (x.Op == token.NEQ || x.Op == token.EQL) {
 			if lit, ok := x.Y.(*ast.BasicLit); ok {
@@ -237,7 +256,7 @@ func (t *cellTr) eval(e ast.Expr) cval {
 			t.fail(e, "binary "+x.Op.String())
 		}
 		n := t.fresh("c")
-		t.emit(n, fmt.Sprintf("%s %s %s", op, t.u64(x.X), t.u64(x.Y)))
+		t.emit(n, fmt.Sprintf("%s %s %s", op, atom(t.u64(x.X)), atom(t.u64(x.Y))))
 		return cval{kind: "u64", expr: n}
 	case *ast.CallExpr:
 		return t.call(x)
@@ -287,6 +306,18 @@ func (t *cellTr) call(x *ast.CallExpr) cval {
 		n := t.fresh("c")
 		t.emit(n, fmt.Sprintf("FiatField.isEqual %s %s", t.u64(x.Args[0]), t.u64(x.Args[1])))
 		return cval{kind: "u64", expr: n}
+	}
+	if fname != "" && t.bytesMode {
+		// a function of the package without receiver (Secp256Polynomial): inlined on the caller's cells
+		if _, isSel := x.Fun.(*ast.SelectorExpr); !isSel {
+			if fd, ok := t.src.funcs[fname]; ok && fd.Recv == nil {
+				var as []cval
+				for _, a := range x.Args {
+					as = append(as, t.eval(a))
+				}
+				return t.inline(fd, nil, as, x)
+			}
+		}
 	}
 	if fname != "" {
 		t.fail(x, "call to "+fname)
@@ -373,6 +404,15 @@ func (t *cellTr) call(x *ast.CallExpr) cval {
 		n := t.fresh("c")
 		t.emit(n, fmt.Sprintf("F.equals %s %s", t.cur[recv.c], t.val(x.Args[0])))
 		return cval{kind: "u64", expr: n}
+	case "FromBytesWithReduce":
+		if !t.bytesMode {
+			t.fail(x, "FromBytesWithReduce outside decoder mode")
+		}
+		args(1)
+		p := t.fresh("p")
+		t.emit(p, "B.fromBytesWithReduce "+atom(t.bytesExpr(x.Args[0])))
+		t.set(recv.c, p+".1")
+		return cval{kind: "multi", more: []cval{recv, {kind: "u64", expr: p + ".2"}}}
 	case "SqrtRatio":
 		args(2)
 		a, b := t.val(x.Args[0]), t.val(x.Args[1])
@@ -995,6 +1035,7 @@ func genCurve(field, scal, root *pkgSrc, out string) {
 		{root, "root", "Element.Copy", "copy", nil, ""},
 	}, "GenElementAPI", "import Secp.FieldOps", out+"/ElementAPI.lean")
 	genLadder(root, out+"/Ladder.lean")
+	genDecoders(root, out+"/Decode.lean")
 	cellsAPIMode = false
 }
 
